@@ -213,14 +213,19 @@ def describe(t):
 
 
 def nontrivial(line):
-    # a case is non-trivial when something was refused: a 0 answer in a gater-level
-    # case (cheap test: the token pattern " 0 " after a call) / a refused gate or no admitted
-    # connection in an end-to-end case.  Cheap approximation on the raw line: every case the
-    # harness writes blocks at least one rule, so count lines with at least one Block call
-    # and at least one refusal recorded by the harness (it appends nothing else), i.e. all
-    # gater cases with >= 1 event and all e2e cases.
-    t = line.split()
-    return len(t) > 12
+    # non-trivial = the gater refused something: a 0 answer of an Intercept* probe in a
+    # gater-level case; a refused gate (or no admitted connection) in an end-to-end case
+    try:
+        t = [int(x) for x in line.split()]
+        if t[0] == 0:
+            _, evs = parse_gater(t)
+            return any(0 in ans for _, _, ans, _ in evs)
+        if t[0] == 1:
+            e = parse_e2e(t)
+            return e["G_conns"] == 0
+    except Exception:
+        pass
+    return False
 
 
 def canon_history(evs, upto):
